@@ -12,7 +12,7 @@ package ssh
 //gvc:func writeShellQuote
 //gvc:  props C41
 //gvc:  theory int
-//gvc:  modifies b.#sq_q, b.#sq_out, b.#sq_n, b.#blen
+//gvc:  modifies b.#sq
 //gvc:  requires bnn: b != nil
 //gvc:  requires start: b.#sq_q == 0
 //gvc:  let n0 = b.#sq_n
@@ -23,10 +23,41 @@ package ssh
 //gvc:  loop 1 invariant decoded: forall(k, 0, i, b.#sq_out[n0 + k] == s[k])
 //gvc:  loop 1 invariant prefix: forall(k, 0, n0, b.#sq_out[k] == out0[k])
 //gvc:  loop 1 invariant grown: b.#blen >= old(b.#blen) + 1
+//gvc:  loop 1 invariant words: b.#sq_w == old(b.#sq_w) && b.#sq_ws == old(b.#sq_ws)
 //gvc:  loop 1 decreases len(s) - i
 //gvc:  ensures closed: b.#sq_q == 0
 //gvc:  ensures count: b.#sq_n == n0 + len(s)
 //gvc:  ensures word: forall(k, 0, len(s), b.#sq_out[n0 + k] == s[k])
 //gvc:  ensures prefix: forall(k, 0, n0, b.#sq_out[k] == out0[k])
 //gvc:  ensures nonempty: b.#blen >= old(b.#blen) + 2
+//gvc:  ensures oneword: b.#sq_w == old(b.#sq_w) && b.#sq_ws == old(b.#sq_ws)
+//gvc:end
+
+// buildCommand: lexed by a POSIX shell the command line is exactly the words
+// Command, Path, Args[0], Args[1], ... : the lexer ends unquoted without having
+// seen an unquoted byte outside the safe set; there are 1 + len(Args) word
+// breaks; the first word is the command, the second the path, and the word
+// that starts at break w+2 decodes to Args[w] exactly and ends at the next
+// break (or at the end of the line), also when Args[w] is empty. Command is a fixed service
+// name of go-git's own (git-upload-pack, ...): assumed to consist of safe bytes.
+//gvc:func buildCommand
+//gvc:  props C41
+//gvc:  theory int
+//gvc:  requires nn: req != nil && req.URL != nil
+//gvc:  requires service: len(req.Command) > 0 && forall(k, 0, len(req.Command), spec_sq_safe(req.Command[k]))
+//gvc:  loop 1 invariant clean: b.#sq_q == 0
+//gvc:  loop 1 invariant breaks: b.#sq_w == 1 + it1
+//gvc:  loop 1 invariant first: b.#sq_ws[1] == len(req.Command) && forall(k, 0, len(req.Command), b.#sq_out[k] == req.Command[k])
+//gvc:  loop 1 invariant path: b.#sq_n >= len(req.Command) + len(req.URL.Path) && forall(k, 0, len(req.URL.Path), b.#sq_out[len(req.Command) + k] == req.URL.Path[k]) && (it1 >= 1 ==> b.#sq_ws[2] == len(req.Command) + len(req.URL.Path)) && (it1 == 0 ==> b.#sq_n == len(req.Command) + len(req.URL.Path))
+//gvc:  loop 1 invariant chain: forall(w, 0, it1 - 1, b.#sq_ws[w + 2] + len(req.Args[w]) == b.#sq_ws[w + 3])
+//gvc:  loop 1 invariant last: it1 >= 1 ==> b.#sq_ws[it1 + 1] + len(req.Args[it1 - 1]) == b.#sq_n
+//gvc:  loop 1 invariant within: forall(w, 0, it1, 0 <= b.#sq_ws[w + 2] && b.#sq_ws[w + 2] + len(req.Args[w]) <= b.#sq_n)
+//gvc:  loop 1 invariant words: forall(w, 0, it1, forall(k, 0, len(req.Args[w]), b.#sq_out[b.#sq_ws[w + 2] + k] == req.Args[w][k]))
+//gvc:  ensures clean: now(b).#sq_q == 0
+//gvc:  ensures breaks: now(b).#sq_w == 1 + len(req.Args)
+//gvc:  ensures command: now(b).#sq_ws[1] == len(req.Command) && forall(k, 0, len(req.Command), now(b).#sq_out[k] == req.Command[k])
+//gvc:  ensures path: forall(k, 0, len(req.URL.Path), now(b).#sq_out[len(req.Command) + k] == req.URL.Path[k]) && (len(req.Args) >= 1 ==> now(b).#sq_ws[2] == len(req.Command) + len(req.URL.Path)) && (len(req.Args) == 0 ==> now(b).#sq_n == len(req.Command) + len(req.URL.Path))
+//gvc:  ensures chain: forall(w, 0, len(req.Args) - 1, now(b).#sq_ws[w + 2] + len(req.Args[w]) == now(b).#sq_ws[w + 3])
+//gvc:  ensures last: len(req.Args) >= 1 ==> now(b).#sq_ws[len(req.Args) + 1] + len(req.Args[len(req.Args) - 1]) == now(b).#sq_n
+//gvc:  ensures words: forall(w, 0, len(req.Args), forall(k, 0, len(req.Args[w]), now(b).#sq_out[now(b).#sq_ws[w + 2] + k] == req.Args[w][k]))
 //gvc:end
